@@ -51,13 +51,20 @@ func (x *XSpec) RunHistory(hist []Op, wantDump bool) HistOutcome {
 	var out HistOutcome
 	deadEnd = false
 	nextOps = nil
+	full := hist
+	if len(x.Prefix) > 0 {
+		full = append(append([]Op{}, x.Prefix...), hist...)
+	}
 	res := vsched.Run(vsched.Opts{}, func(s *vsched.Sched) {
-		out.MM, out.Dump = x.Exec(x, s, hist, wantDump)
+		out.MM, out.Dump = x.Exec(x, s, full, wantDump)
 	})
 	out.Dead = deadEnd
 	out.Next = nextOps
 	ConformanceCheck()
-	out.absorb(res, len(hist))
+	out.absorb(res, len(full))
+	if out.MM != nil && len(x.Prefix) > 0 {
+		out.MM.Op = "after prefix [" + HistString(x.Prefix) + "] " + out.MM.Op
+	}
 	return out
 }
 
@@ -169,9 +176,10 @@ func (x *XSpec) Explore(r *Report, job *Job) {
 					mm = out.MM
 					sh = hist
 				}
-				sig := fmt.Sprintf("%s|%s|%s|%s", x.Property, x.Name, mm.Class, HistString(sh))
+				// the signature names the whole witness: start-state prefix (if any) plus the shrunk history
+				sig := fmt.Sprintf("%s|%s|%s|%s", x.Property, x.Name, mm.Class, HistString(append(append([]Op{}, x.Prefix...), sh...)))
 				r.Violate(Violation{Property: x.Property, Sig: sig, Class: mm.Class,
-					Summary: fmt.Sprintf("[%s] %s :: %s", x.Name, HistString(sh), mm.String()),
+					Summary: fmt.Sprintf("[%s] %s :: %s", x.Name, HistString(append(append([]Op{}, x.Prefix...), sh...)), mm.String()),
 					Replay:  mustJSON(xReplay{Kind: "xstate", Check: job.Check, Config: x.Name, History: sh, HistStr: HistString(sh), Found: mm, Stacks: so.Stacks, Full: append([]Op(nil), hist...)})})
 			}
 		}
